@@ -136,12 +136,16 @@ fn check(id: &str, tier: Tier) -> i32 {
     for (key, count, v) in &new_viol {
         n += 1;
         let path = format!("/verif/replays/{}-{}.json", id, n);
+        let mut case = v.replay.clone();
+        if let Some(o) = case.as_object_mut() {
+            o.insert("tier".into(), json!(tier.name()));
+        }
         let body = json!({
             "property": id,
             "key": key,
             "what": v.what,
             "instances": count,
-            "case": v.replay,
+            "case": case,
         });
         std::fs::write(&path, serde_json::to_string_pretty(&body).unwrap()).unwrap();
         println!("violation: [{}] x{}: {}", key, count, v.what);
